@@ -272,3 +272,70 @@ theorem layeredWFb_sound (g : G) (h : layeredWFb g = true) : LayeredWF g := by
   exact ⟨fun n e he => ⟨(hins n e he).1, (hins n e he).2.1⟩, fun n e he => (hins n e he).2.2, h4, h3, h2⟩
 
 end Autog
+
+namespace Autog
+
+/-- C01: `setColor` climbs one band per recursive call, so it returns whenever its fuel exceeds the band index of the node -/
+theorem setColor_total (g : G) (hL : LayeredWF g) (hnn : ∀ x, 0 ≤ g.layerOf x) : ∀ (fuel : Nat) (s : SCSt) (n : Nat),
+    (g.layerOf n).toNat < fuel → ∃ r, setColor g fuel s n = .ok r
+  | 0, _, _, h => by omega
+  | fuel + 1, s, n, h => by
+    unfold setColor
+    simp only
+    split
+    · exact ⟨_, rfl⟩
+    · split
+      · exact ⟨_, rfl⟩
+      · rename_i e hpick
+        have hpe := pick_spec g (g.node n) _ _ 0 e
+          (fun y hy => foldl_last_virt_mem g n (g.node n).ins none (g.node n).ins (fun _ h0 => by cases h0) (fun _ hz => hz) y hy) hpick
+        split
+        · exact ⟨_, rfl⟩
+        · split
+          · exact ⟨_, rfl⟩
+          · have hin := hL.ins n e hpe.1
+            have hother : g.other e n = (g.edge e).src := by
+              unfold G.other; simp [hin.1]
+            have hlt : g.layerOf (g.other e n) < g.layerOf n := by
+              rw [hother]
+              have hle := hL.down n e hpe.1
+              have hnf : g.layerOf (g.edge e).src ≠ g.layerOf (g.edge e).dst := by
+                have := hpe.2.2
+                unfold G.isFlat at this
+                simpa using this
+              rw [hin.1] at hnf
+              omega
+            have h0 := hnn (g.other e n)
+            obtain ⟨r, hr⟩ := setColor_total g hL hnn fuel _ (g.other e n) (by omega)
+            simp only [bind, Except.bind]
+            rw [hr]
+            exact ⟨_, rfl⟩
+
+/-- C01: block building returns on every properly layered state whose band indices fit the layer list -/
+theorem scBlocks_total (g : G) (hL : LayeredWF g) (hnn : ∀ x, 0 ≤ g.layerOf x)
+    (hfit : ∀ n ∈ scOrder g, (g.layerOf n).toNat < g.layers.size + 2) : ∃ r, scBlocks g = .ok r := by
+  unfold scBlocks
+  simp only
+  have : ∀ (todo : List Nat) (acc : SCSt × Array Rat), (∀ n ∈ todo, (g.layerOf n).toNat < g.layers.size + 2) →
+      ∃ r, todo.foldlM (scStep g) acc = .ok r := by
+    intro todo
+    induction todo with
+    | nil => intro acc _; exact ⟨acc, rfl⟩
+    | cons k todo ih =>
+      intro acc hk
+      obtain ⟨r, hr⟩ := setColor_total g hL hnn (g.layers.size + 2) acc.1 k (hk k (List.mem_cons_self ..))
+      have hstep : ∃ a1, scStep g acc k = .ok a1 := by
+        unfold scStep
+        simp only [bind, Except.bind, hr]
+        exact ⟨_, rfl⟩
+      obtain ⟨a1, ha1⟩ := hstep
+      obtain ⟨r2, hr2⟩ := ih a1 (fun n hn => hk n (List.mem_cons_of_mem _ hn))
+      exact ⟨r2, by simp only [List.foldlM_cons, bind, Except.bind, ha1, hr2]⟩
+  obtain ⟨r, hr⟩ := this (scOrder g)
+    ({ colors := (List.range g.nodes.size).toArray, roots := (List.range g.nodes.size).toArray, priority := [] },
+      Array.replicate g.nodes.size 0) hfit
+  simp only [bind, Except.bind]
+  rw [hr]
+  exact ⟨_, rfl⟩
+
+end Autog
